@@ -1,19 +1,71 @@
 """C13 — RISE/vRISE supply: 1:1 conversion, capped emission, vRISE not transferable."""
+import json
 from lib import fw
 
-MODULES = ["SunriseVerif.Props.C13"]
+MODULES = ["SunriseVerif.Props.C13", "SunriseVerif.Witness.C13"]
+
+
+def features(f):
+    """input class of an oracle failure (for known-finding matching): gap=le1y|gt1y on the mint oracles"""
+    out = {}
+    for tok in f["detail"].split():
+        if tok.startswith("gap="):
+            out["gap"] = tok[4:]
+    return out
 
 
 def run(ctx):
     if not ctx.translate():
         return
-    ok = ctx.prove(MODULES)
+    ok = ctx.prove(MODULES, needs_gen=["KernelsMint", "KernelsGovFee", "FactsBan"])
+    # part 1: conversion (model vs real bank + message router)
     res = fw.corr(ctx, "convert", 60 if ctx.thorough() else 8)
     fw.report_corr(ctx, "convert", res)
+    # part 2: minting — real blocks at irregular intervals, year boundaries, supplies near the cap (model vs real app + oracles)
+    res = fw.corr(ctx, "mint", 120 if ctx.thorough() else 25)
+    fw.report_corr(ctx, "mint", res, features)
+    if res is not None:
+        st = res["stats"]
+        for k in ("fired.1", "minted.blocks", "minted.to_cap"):
+            if st.get(k, 0) == 0:
+                ctx.fail("infra", "mint suite generator produced no case of kind " + k, json.dumps(st))
+    # part 3: transfer ban — every message kind attempted with uvrise / a share token / a control denom on the real app
+    res = fw.corr(ctx, "ban", 6 if ctx.thorough() else 2, driver_suite=False)
+    fw.report_corr(ctx, "ban", res)
+    if res is not None:
+        st = res["stats"]
+        kinds = ("send", "multisend", "authz_exec_send", "ibc_transfer", "pool_deposit_base", "pool_deposit_quote", "swap_in",
+                 "account_init_funds", "lockup_send")
+        for k in kinds:
+            if st.get(k + ".uvrise.err", 0) + st.get(k + ".uvrise.ok", 0) == 0 or st.get(k + ".uaaa.ok", 0) == 0:
+                ctx.fail("infra", "ban suite did not exercise message kind " + k, json.dumps(st))
     if ctx.thorough() and ok:
         ctx.leanchecker(MODULES)
 
 
 def replay(ctx, path):
-    print(open(path).read())
-    return 0
+    """print the replay file and re-run the suite it names with the recorded seed; exit 1 if the oracle still fails"""
+    txt = open(path).read()
+    print(txt)
+    try:
+        rp = json.loads(txt)
+    except Exception:
+        return 0
+    svh = ctx.gobuild("svh")
+    if not svh:
+        return 1
+    rc_all = 0
+    for fi in rp.get("failing_inputs", []):
+        inp = fi.get("input") or {}
+        suite = inp.get("suite")
+        if not suite:
+            continue
+        n = {"convert": 8, "mint": 25, "ban": 2}.get(suite, 10)
+        if rp.get("tier") == "thorough":
+            n = {"convert": 60, "mint": 120, "ban": 6}.get(suite, 10)
+        rc, so, se, dt = fw.sh([svh, "-seed", str(inp.get("seed", rp.get("seed", 1))), "-n", str(n), suite])
+        fails = [l for l in so.splitlines() if l.startswith("! ") and " FAIL " in l]
+        print("\n".join(fails[:20]) or "suite %s: no oracle failure on the current tree" % suite)
+        if fails:
+            rc_all = 1
+    return rc_all
